@@ -131,6 +131,8 @@ struct ParserWorld : World {
 		p.set("opt", r.chance(1, 2) ? 0xff : r.below(64));
 		p.set("prepop", r.chance(1, 2));
 		p.set("only_kind", 0); p.set("only_at", 0);
+		// rarely: sections nested this deep (the text is made at execution time: name, section start, repeated; the input ends inside them)
+		p.set("deep", r.chance(1, tier ? 80 : 200) ? (int64_t) (r.chance(1, 2) ? r.range(500, 3000) : r.range(300000, 400000)) : 0);      // (never a depth near the limit of a default machine stack: such a run would not replay exactly)
 		// second text: pre-populates the target so that the merge path runs
 		Bytes t2;
 		if (p.get("prepop")) { const char *pre = "alpha = 1\nsec {\n beta = 2\n gamma {\n  x = y\n }\n}\n"; t2.assign(pre, pre + strlen(pre)); for (auto &b : t2) { if (b == '{') b = ss ? ss : '{'; if (b == '}') b = se ? se : '}'; if (b == '=') b = as ? as : '='; } }
@@ -152,6 +154,22 @@ struct ParserWorld : World {
 		return o;
 	}
 	void exec(const Plan &p, Log &log, Stats &st) override {
+		int64_t deep = std::min<int64_t>(std::max<int64_t>(p.get("deep"), 0), 400000);
+		if (deep) {
+			// depth is bounded by memory only: building, merging and releasing the tree may not depend on the machine stack
+			const Bytes &fb0 = p.blob(1); uint8_t ss = fb0.size() > 0 ? fb0[0] : '{', se = fb0.size() > 2 ? fb0[2] : '}';
+			bool bracket = ss == '[' || ss == '<';
+			Bytes t; for (int64_t i = 0; i < deep; ++i) { if (bracket) { t.push_back(ss); t.push_back('a'); t.push_back(se); t.push_back('\n'); } else { t.push_back('a'); t.push_back(ss); } }
+			bool closed = (deep & 1) != 0; if (closed && !bracket) for (int64_t i = 0; i < deep; ++i) t.push_back(se);
+			std::string fmt((const char *) fb0.data(), fb0.size()); for (auto &c : fmt) if (!c) c = ' ';
+			node root; Outcome o = parse_once(root, t, fmt, 0xff, 0xff, (size_t) -1, (size_t) -1, 0);
+			log.ev("DEEP %lld levels%s -> %d reads=%llu", (long long) deep, closed ? " (closed)" : "", o.rc, (unsigned long long) o.reads);
+			if (o.reader_over) fail("reader-loop", "deep nesting: parser called the reader %llu times for %zu characters", (unsigned long long) o.reads, t.size());
+			{ Sut s; mpt_node_clear(&root); }
+			if (ledger_live()) fail("leak", "deep nesting: %zu block(s) stay allocated after the parse (%d) and clearing the tree", ledger_live(), o.rc);
+			st.hit("probe:deep_nesting"); st.state(399, o.rc < 0 ? 0 : 1, (uint64_t) (deep > 100000));
+			return;
+		}
 		const Bytes &text = p.blob(0);
 		std::string fmt((const char *) p.blob(1).data(), p.blob(1).size());
 		for (auto &c : fmt) if (!c) c = ' ';
